@@ -237,20 +237,31 @@ def run(chk):
 
         # ---- 4. monodromy wiring -------------------------------------------------------------------------
         def th_mono():
-            rec = {}
+            # the STM is an UNINTERPRETED function of the time span: a different (deterministic, well-conditioned) matrix for
+            # every tf, so that any way of obtaining the monodromy other than "forward STM over one full period from the
+            # orbit's own state" returns a different matrix
+            calls = []
+
+            def phi(tf):
+                rng = _np.random.default_rng(int(round(float(tf) * 1000)) + 7)
+                return _np.eye(6) + 0.25 * rng.standard_normal((6, 6))
 
             def fake_stm(dynsys, x0, tf, **kw):
-                rec.update(dynsys=dynsys, x0=x0, tf=tf, kw=kw)
-                return "X", "T", "PHI_T", "PHI"
+                calls.append(dict(dynsys=dynsys, x0=x0, tf=tf, kw=kw))
+                P = phi(tf) if kw.get("forward", 1) == 1 else _np.linalg.inv(phi(tf))
+                return "X", "T", P, "PHI"
             saved = rtbp._compute_stm
             rtbp._compute_stm = fake_stm
+            x0 = _np.array([0.8, 0.1, 0.05, 0.0, 0.2, 0.01])       # NOT on a symmetry plane
             try:
-                M = rtbp._compute_monodromy("DYN", "X0", "PERIOD")
+                M = rtbp._compute_monodromy("DYN", x0, 3.0)
             finally:
                 rtbp._compute_stm = saved
-            if M != "PHI_T" or rec["dynsys"] != "DYN" or rec["x0"] != "X0" or rec["tf"] != "PERIOD" \
-                    or rec["kw"].get("forward", 1) != 1:
-                raise Refuted("monodromy-wiring", str(rec))
+            if not (isinstance(M, _np.ndarray) and M.shape == (6, 6) and _np.allclose(M, phi(3.0), rtol=0, atol=1e-12)):
+                raise Refuted("_compute_monodromy does not return the forward STM over one full period from the given state",
+                              f"STM requests: {[(c['tf'], c['kw']) for c in calls]}", inputs={"period": 3.0})
+            if any(c["dynsys"] != "DYN" or c["x0"] is not x0 and not _np.array_equal(c["x0"], x0) for c in calls):
+                raise Refuted("monodromy-wiring: STM requested for another system / state", str(calls))
         chk.obl("_compute_monodromy(d,x0,T) == _compute_stm(d,x0,T)[2] (forward)", "K2 wiring",
                 [RT + ":_compute_monodromy"], "B4 exact evaluation", th_mono)
 
